@@ -92,7 +92,41 @@ real_enum!(Single: Only = b"ONLY");
 real_enum!(Windows: Rectangular = b"RECTangular", Hanning = b"HANNing", Hamming = b"HAMMing", Flattop = b"FLATtop", Uniform = b"UNIForm");
 real_enum!(StateE: State = b"STATe", Range = b"RANGe", Sense = b"SENSe", Trace = b"TRACe", Time = b"TIMe");
 
+/// the enumeration the library itself derives and exports for `<header>? MAX|MIN|DEF` queries
+pub const NUMERIC_VALUE_QUERY: EnumInfo = {
+    use scpi_contrib::scpi1999::NumericValueQuery as Q;
+    fn idx(q: &Q) -> usize {
+        match q {
+            Q::Maximum => 0,
+            Q::Minimum => 1,
+            Q::Default => 2,
+        }
+    }
+    fn make(i: usize) -> Q {
+        match i {
+            0 => Q::Maximum,
+            1 => Q::Minimum,
+            _ => Q::Default,
+        }
+    }
+    EnumInfo {
+        name: "scpi_contrib::scpi1999::NumericValueQuery",
+        mnemonics: &[b"MAXimum", b"MINimum", b"DEFault"],
+        field: &[false, false, false],
+        from_mnemonic: |s| Q::from_mnemonic(s).map(|v| idx(&v)),
+        mnemonic_of: |i| make(i).mnemonic(),
+        short_form_of: |i| make(i).short_form(),
+        try_from_token: |t| Q::try_from(t).map(|v| idx(&v)),
+        format: |i| {
+            let mut out: Vec<u8> = Vec::new();
+            make(i).format_response_data(&mut out)?;
+            Ok(out)
+        },
+    }
+};
+
 pub static REALISTIC: &[EnumInfo] = &[
+    NUMERIC_VALUE_QUERY,
     OnOff::INFO, AutoOnOff::INFO, OffOnOnce::INFO, MinMaxDef::INFO, UpDown::INFO, InfNinfNan::INFO, TrigSource::INFO, Slope::INFO, DataFormat::INFO, ByteOrder::INFO, Coupling::INFO,
     Function::INFO, Channel::INFO, TrueFalse::INFO, YesNo::INFO, ZeroOne::INFO, LowHigh::INFO, NoneAll::INFO, Unit::INFO, Single::INFO, Windows::INFO, StateE::INFO,
 ];
